@@ -44,7 +44,12 @@ def palette_valid(d):
     return acc
 
 
-SPEC.update(dict(palette_valid=palette_valid, is_colour=is_colour, AA20=AA20))
+def palette_of(d):
+    """the palette stored for an accepted dictionary: the given colour of each of the 20 residues"""
+    return {a: d[a] for a in AA20}
+
+
+SPEC.update(dict(palette_of=palette_of, palette_valid=palette_valid, is_colour=is_colour, AA20=AA20))
 
 
 def mk_seq_with_palette(it, case):
@@ -56,10 +61,9 @@ def mk_seq_with_palette(it, case):
 mk_seq_with_palette.inv = 'seq_inv(self)'
 
 CONTRACT[K + 'set_HTMLColorResiduePalette'] = dict(
-    self=mk_seq_with_palette, params={'colorDict': palette_param()},
+    self=mk_seq_with_palette, no_inv=True, params={'colorDict': palette_param()},
     cases=[dict(params={'colorDict': palette_param()}), dict(params={'colorDict': palette_param(missing='A')}),
            dict(params={'colorDict': palette_param(missing='M')}), dict(params={'colorDict': palette_param(missing='Y')})],
     raises=[('SequenceException', 'Not(palette_valid(colorDict))')],
     modifies=['aminoAcidColorMap'], modifies_on_raise=[],
-    ensures=['length(self.aminoAcidColorMap) == 20',
-             'dict_all(self.aminoAcidColorMap, lambda a, v: v == colorDict[a])'])
+    ensures=['self.aminoAcidColorMap == palette_of(colorDict)'])
